@@ -602,7 +602,65 @@ class StreamDetector(_Base, StageableMixin):
         return iter(docs)
 
 
+class AssetDetector(_Base, ReadableMixin, StageableMixin, TriggerableMixin):
+    """Legacy external-asset detector (WritesExternalAssets): each trigger makes one Datum; read() returns the
+    datum_id under an 'external' data key plus one internal number; resource + datums come from
+    collect_asset_docs().  `frame_kwarg`: put a 'frame' index into datum_kwargs (area-detector style)."""
+
+    def __init__(self, sim, name, spec, world):
+        super().__init__(sim, name, spec, world)
+        self._resource = None
+        self._pending = []
+        self._ntrig = 0
+        self._datum_id = None
+        self._spec_name = spec.get("spec", "AD_HDF5_SWMR_SLICE")
+
+    def stage(self):
+        self._resource = None
+        return StageableMixin.stage(self)
+
+    def trigger(self):
+        from event_model import compose_resource
+
+        f, n = self._enter("trigger")
+        if self._resource is None:
+            kwargs = dict(self.spec.get("resource_kwargs", {"path": "/entry/data", "frame_per_point": 1}))
+            self._resource = compose_resource(
+                spec=self._spec_name, root="/sim/root/", resource_path=f"{self.name}/file_{n}.h5", resource_kwargs=kwargs, start={"uid": "x"}
+            )
+            r = dict(self._resource.resource_doc)
+            r.pop("run_start", None)
+            self._pending.append(("resource", r))
+        dk = {"point_number": self._ntrig}
+        if self.spec.get("frame_kwarg"):
+            dk = {"frame": self._ntrig}
+        d = self._resource.compose_datum(datum_kwargs=dk)
+        self._ntrig += 1
+        self._datum_id = d["datum_id"]
+        self._pending.append(("datum", d))
+        return self._status("trigger", f, n, default_delay=self.spec.get("trigger_delay", 0.01))
+
+    def _reading(self):
+        t = self.sim.wall_time()
+        return {
+            self.name + "_image": {"value": self._datum_id, "timestamp": t},
+            self.name + "_stat": {"value": float(self._ntrig), "timestamp": t},
+        }
+
+    def _describe(self):
+        return {
+            self.name + "_image": {"source": f"SIM:{self.name}:image", "dtype": "array", "shape": [2, 2], "external": "FILESTORE:"},
+            self.name + "_stat": {"source": f"SIM:{self.name}:stat", "dtype": "number", "shape": []},
+        }
+
+    def collect_asset_docs(self):
+        self._enter("collect_asset_docs")
+        docs, self._pending = self._pending, []
+        return iter(docs)
+
+
 KINDS = {
+    "assetdet": AssetDetector,
     "motor": Motor,
     "pmotor": PausableMotor,
     "det": Detector,
